@@ -4,6 +4,7 @@
 -/
 import BB.Conform.C11Policy
 import BB.Proofs.Lockset
+import BB.Gen.Captured
 
 namespace BB.Conform.C11
 open BB.Lockset BB.Gen.Skel BB.Gen.Access
@@ -28,5 +29,17 @@ theorem lock_order_facts :
     BB.Skel.dominates g_Buffer_Diff (BB.Skel.is BB.Skel.K.lock S.consumer_mutex) (BB.Skel.is BB.Skel.K.rlock S.Buffer_mutex) = true ∧
     BB.Skel.dominates g_Exclusive_call (BB.Skel.is BB.Skel.K.lock S.exclusiveItem_mutex) (BB.Skel.is BB.Skel.K.write S.exclusiveItem_count) = true := by
   decide +kernel
+
+/-- variables of a function shared with a goroutine / AfterFunc closure it launches are not assigned by the function
+    after the launch.  Allowed: `WaitCond.ctx`, assigned once in the same `cancel == nil` block, textually before the
+    `go` statement (the rule lists it because both sit in the wait loop). -/
+def allowedCapturedWrites : List (String × String × String) := [("WaitCond", "WaitCond.ctx", "WaitCond$0")]
+
+theorem no_captured_variable_written_after_launch :
+    BB.Gen.Captured.writesAfterLaunch.filter (fun e => !allowedCapturedWrites.contains e) = [] := by decide
+
+/-- CombineContext publishes its clean-up hook (which reads the slice of stop functions) only after the last append -/
+theorem combine_publishes_cleanup_after_wiring :
+    BB.Skel.never g_CombineContext (BB.Skel.is BB.Skel.K.afterfunc S.ctx) (BB.Skel.is BB.Skel.K.afterfunc S.other) = true := by decide
 
 end BB.Conform.C11
